@@ -1,11 +1,14 @@
 package wsjson
 
 import (
+	"bytes"
 	"context"
 	"encoding/json"
 	"math"
+	"strings"
 
 	"nhooyr.io/websocket"
+	"nhooyr.io/websocket/internal/bpool"
 )
 
 var vDocs = []string{`"ab"`, `{"k":[1,2,{"x":null}]}`, `12345`, `[true,false,"é"]`}
@@ -156,4 +159,31 @@ func verifC19ReadTyped(c *websocket.Conn, out func() []byte, bytesTarget bool) {
 	websocket.VerifAssert(n == 1 && code == 1007, "C19.read.invalid-closes-1007")
 	c.CloseNow()
 	websocket.VerifObserve("read-typed", n1, err2 == nil)
+}
+
+// C19.bpool: one step of the buffer pool from an arbitrary buffer state (any capacity up to and beyond 1 MiB, any
+// content): after Put, the buffer Get hands out - whichever it is - is empty, and what is read into it is exactly what
+// the reader supplied. wsjson.Read decodes the bytes of that buffer: a buffer that does not come back empty turns the
+// next valid message into an invalid one. (The step is what every history reduces to; a >1 MiB message itself is
+// outside the bounds of C19.read.)
+func verifC19_bpool() {
+	websocket.VerifGhostPoolMode(0)
+	caps := []int{0, 1, 64, 4096, 4097, 1 << 20, 1<<20 + 1, 3 << 20}
+	cp := caps[websocket.VerifChoose("cap", len(caps))]
+	b := bytes.NewBuffer(make([]byte, 0, cp))
+	fill := websocket.VerifChoose("fill", 3)
+	switch fill {
+	case 1:
+		b.WriteString(`{"old":1}`)
+	case 2:
+		b.Write(make([]byte, cp)) // filled to capacity
+	}
+	bpool.Put(b)
+	g := bpool.Get()
+	websocket.VerifReach("C19.bpool.got")
+	websocket.VerifAssert(g.Len() == 0, "C19.bpool.buffer-from-the-pool-is-empty")
+	g.ReadFrom(strings.NewReader(`[1,2]`))
+	websocket.VerifAssert(string(g.Bytes()) == `[1,2]`, "C19.bpool.holds-exactly-what-was-read")
+	bpool.Put(g)
+	websocket.VerifObserve("bpool", cp, fill)
 }
